@@ -64,7 +64,7 @@ theorem gen_seccomp_nil {U : Unsupported} {flags : Nat} {uargs : Option Prog} {w
   | declined e he _ => exact absurd hz.1 he
   | refused t hts _ _ =>
     exact absurd ⟨hts, Nat.succ_ne_zero t⟩ hz.2
-  | attachedOne p hp hok havail hflags hts hpriv =>
+  | attachedOne p r1 hr hp hok havail hflags hts hpriv =>
     exact ⟨p, hp, hok, havail, hflags, fun h' => absurd hts h', hpriv, .inl ⟨hts, h2⟩⟩
   | attachedAll p hp hok havail hflags hts hsync hpriv =>
     exact ⟨p, hp, hok, havail, hflags, fun _ => hsync, hpriv, .inr ⟨hts, h2⟩⟩
@@ -83,8 +83,8 @@ theorem gen_seccomp_err {U : Unsupported} {flags : Nat} {uargs : Option Prog} {w
   cases hk with
   | declined e he _ => exact h2
   | refused t hts _ _ => exact h2
-  | attachedOne p hp hok havail hflags hts hpriv =>
-    exact absurd ⟨rfl, fun hc => hc.2 rfl⟩ hz
+  | attachedOne p r1 hr hp hok havail hflags hts hpriv =>
+    exact absurd ⟨rfl, fun hc => hc.1 hts⟩ hz
   | attachedAll p hp hok havail hflags hts hsync hpriv =>
     exact absurd ⟨rfl, fun hc => hc.2 rfl⟩ hz
 
@@ -132,6 +132,7 @@ theorem gen_seccomp_log (U : Unsupported) (flags : Nat) (uargs : Option Prog) (w
 theorem gen_seccomp_ok {U : Unsupported} {flags : Nat} {p : Prog} {w : World}
     (havail : w.seccompAvailable = true)
     (hflags : flags &&& knownFlags = flags)
+    (hcombo : ¬ (flags &&& FLAG_TSYNC ≠ 0 ∧ flags &&& FLAG_NEW_LISTENER ≠ 0))
     (hok : p.ok = true ∧ p.len ≠ 0 ∧ p.len ≤ BPF_MAXINSNS)
     (hpriv : ((schedStep w).thr (schedStep w).cur).nnp = true ∨ w.privileged = true)
     (hsync : flags &&& FLAG_TSYNC ≠ 0 → ∀ t ∈ w.live, t ≠ (schedStep w).cur →
@@ -143,7 +144,7 @@ theorem gen_seccomp_ok {U : Unsupported} {flags : Nat} {p : Prog} {w : World}
   cases hk with
   | declined e he hwhy =>
     exfalso
-    rcases hwhy with h | h | ⟨q, hq, hbad⟩ | ⟨h1, h2⟩ | hna
+    rcases hwhy with h | h | ⟨q, hq, hbad⟩ | ⟨h1, h2⟩ | hna | hcb
     · exact h hflags
     · cases h
     · cases hq
@@ -155,12 +156,13 @@ theorem gen_seccomp_ok {U : Unsupported} {flags : Nat} {p : Prog} {w : World}
       · rw [h1] at h; cases h
       · rw [h2] at h; cases h
     · rw [hna] at havail; cases havail
+    · exact hcombo hcb
   | refused t hts ht hdiv =>
     exfalso
     have := hsync hts t ht.1 ht.2
     rw [hdiv] at this; cases this
-  | attachedOne q hq hok' havail' hflags' hts hpriv' =>
-    exact ⟨rfl, fun hc => hc.2 rfl⟩
+  | attachedOne q r1 hr hq hok' havail' hflags' hts hpriv' =>
+    exact ⟨rfl, fun hc => hc.1 hts⟩
   | attachedAll q hq hok' havail' hflags' hts hsync' hpriv' =>
     exact ⟨rfl, fun hc => hc.2 rfl⟩
 
@@ -170,7 +172,7 @@ theorem gen_seccomp_ok {U : Unsupported} {flags : Nat} {p : Prog} {w : World}
 theorem gen_supported_char (U : Unsupported) (w : World) :
     Gen.supported U w = (w.seccompAvailable, (sysSeccomp 0 1 none w).2.2) := by
   have hne : (sysSeccomp 0 1 none w).2.1 ≠ 0 := by
-    rw [sysSeccomp_probe]; cases w.seccompAvailable <;> simp [EINVAL, ENOSYS]
+    rw [sysSeccomp_probe]; cases w.seccompAvailable <;> simp [EINVAL, Refusal.errno_ne_zero]
   have h4 := (gen_seccomp_core U 0 1 none w).2.2.2 hne
   have hw := gen_seccomp_world U 0 1 none w
   unfold Gen.supported
@@ -179,4 +181,5 @@ theorem gen_supported_char (U : Unsupported) (w : World) :
   simp only at h4 hw
   subst h4 hw
   rw [sysSeccomp_probe]
-  cases w.seccompAvailable <;> simp [EINVAL, ENOSYS]
+  have := w.refusal.errno_ne_einval
+  cases w.seccompAvailable <;> simp_all [EINVAL]
